@@ -628,7 +628,7 @@ func (m *Machine) run(st *State) []*State {
 					seenKeys = map[string]bool{}
 				}
 				fr := s.top()
-				k := fmt.Sprintf("%p/%d/%d/%d/%d|", fr.Blk, fr.PC, len(s.Frames), len(s.Effects), oracleProgress) + m.Key(s.Clone())
+				k := fmt.Sprintf("%p/%d/%d/%d|", fr.Blk, fr.PC, len(s.Frames), oracleProgress) + m.Key(s.Clone())
 				if seenKeys[k] {
 					s.Status = stStuck
 					s.Msg = fmt.Sprintf("NONTERMINATION: the same state is reached again in %s (a loop that changes nothing)", fname(fr.Fn))
